@@ -495,3 +495,39 @@ def c08_r9(ctx):
                    loc=ctx.nodeloc(f, A.ast))
     if n < 4:
         raise AnalysisError("only %d column writers count rows in add()" % n)
+
+
+@rule("C08", "R10", "K2", "a merge copies raw column values",
+      min_instances=1, also=("C06",),
+      clause="SegmentWriter.write_per_doc writes what the source column reader returns straight into the new segment's column writer. "
+             "Every reader.column_reader(...) call on its `reader` parameter therefore asks for untranslated values (translate=False) -- "
+             "SegmentReader and MultiReader translate by default, and a MultiReader's composite reader cannot be unwrapped afterwards -- "
+             "unless the call lies where `reader` is known not to be an IndexReader (the per-document reader of the multi-process "
+             "merge, which has no translating layer).")
+def c08_r10(ctx):
+    prog = ctx.prog
+    f = prog.method("writing.SegmentWriter", "write_per_doc", inherited=False)
+    ctx.saw(f)
+    rp = f.params[2] if len(f.params) > 2 else "reader"
+    fa = guards.Facts(f)
+    n = 0
+    for nd in fa.g.nodes:
+        for frag in cfgmod.node_exprs(nd):
+            for c in norm.calls_in(frag):
+                if norm.call_name(c) != "column_reader" or norm.canon(norm.receiver(c) or ast.Name(id="")) != rp:
+                    continue
+                n += 1
+                tr = None
+                for k in c.keywords:
+                    if k.arg == "translate":
+                        tr = k.value
+                if tr is None and len(c.args) >= 4:
+                    tr = c.args[3]
+                raw = isinstance(tr, ast.Constant) and tr.value is False
+                facts = fa.at(nd) or frozenset()
+                not_index_reader = any(p_ == "F" and t.startswith("isinstance(%s, " % rp) and "IndexReader" in t for (p_, t) in facts)
+                ctx.ob(f, raw or not_index_reader, "%s.column_reader(...) yields raw values on the merge path" % rp,
+                       detail="translated values would be written back as raw ones (add_reader() with a multi-segment reader)"
+                       if not (raw or not_index_reader) else "", loc=ctx.nodeloc(f, c))
+    if n < 1:
+        raise AnalysisError("write_per_doc no longer opens column readers on its reader parameter")
